@@ -12,20 +12,26 @@ VERIF = os.path.dirname(os.path.dirname(os.path.abspath(__file__)))
 sid, wt, prop = sys.argv[1], sys.argv[2], sys.argv[3]
 skip_tests = "--skip-tests" in sys.argv
 env = dict(os.environ, PYTHONPATH=wt)
-seed = os.path.join(wt, "_seed")
+sub = sys.argv[sys.argv.index("--dir") + 1] if "--dir" in sys.argv else "_seed"
+seed = os.path.join(wt, sub)
 out = os.path.join(VERIF, "seeded", sid)
 os.makedirs(out, exist_ok=True)
 
 def run(cmd, **kw):
     return subprocess.run(cmd, capture_output=True, text=True, **kw)
 
+if "--dir" in sys.argv:
+    # several independent changes per worktree: start from the clean tree and apply this one
+    run(["git", "-C", wt, "checkout", "--", "partitura"])
+    a0 = run(["git", "-C", wt, "apply", os.path.join(seed, "patch.diff")])
+    assert a0.returncode == 0, a0.stderr
 diff = run(["git", "-C", wt, "diff", "--", "partitura"]).stdout
 assert diff.strip(), "no change in worktree"
 open(os.path.join(seed, "patch.diff"), "w").write(diff)
-r_patched = run(["/venv/bin/python", "_seed/demo.py"], cwd=wt, env=env)
+r_patched = run(["/venv/bin/python", f"{sub}/demo.py"], cwd=wt, env=env)
 # NOTE: never `git stash` here — the stash is shared by all worktrees of a repository
 assert run(["git", "-C", wt, "apply", "-R", os.path.join(seed, "patch.diff")]).returncode == 0, "cannot reverse the patch"
-r_clean = run(["/venv/bin/python", "_seed/demo.py"], cwd=wt, env=env)
+r_clean = run(["/venv/bin/python", f"{sub}/demo.py"], cwd=wt, env=env)
 assert run(["git", "-C", wt, "apply", os.path.join(seed, "patch.diff")]).returncode == 0, "cannot re-apply the patch"
 assert run(["git", "-C", wt, "diff", "--", "partitura"]).stdout == diff, "re-applying did not restore the patch"
 demo_ok = r_patched.returncode != 0 and r_clean.returncode == 0
